@@ -2,6 +2,7 @@
   C11 — class declaration order is a complete topological order; cycles are refused.
 -/
 import StathamModel.Orderer
+import StathamModel.Lemmas.ListAux
 import StathamModel.Tie
 namespace Statham.C11
 open Statham
@@ -68,6 +69,107 @@ theorem cycle_refused (g : ClassGraph) (h : (depTable g).any (fun e => e.2.conta
     ordererGraph g = .error .unresolvable := by
   unfold ordererGraph
   simp only [h, if_true]
+
+/-! ### The emitted order respects every dependency, without repetition -/
+
+/-- what the next table is made of -/
+theorem popNext_table {table : List (String × List String)} {n : String} {table' : List (String × List String)}
+    (h : popNext table = some (n, table')) :
+    table' = (table.filter fun x => x.1 != n).map fun x => (x.1, x.2.filter fun d => d != n) := by
+  unfold popNext at h
+  cases hf : table.find? (fun e => e.2.isEmpty) with
+  | none => rw [hf] at h; cases h
+  | some e =>
+    rw [hf] at h
+    simp only [Option.some.injEq, Prod.mk.injEq] at h
+    rw [← h.1, ← h.2]
+
+/-- **Every class is declared after everything it depends on**: if `n` is emitted at position `i`, it had an
+    entry in the table and every member of that entry's dependency list was emitted before position `i`. -/
+theorem emitAll_sound : ∀ (fuel : Nat) (table : List (String × List String)) (i : Nat) (n : String),
+    (emitAll fuel table).1[i]? = some n →
+    ∃ deps, (n, deps) ∈ table ∧ ∀ d ∈ deps, d ∈ (emitAll fuel table).1.take i
+  | 0, table, i, n, h => by simp [emitAll] at h
+  | fuel + 1, table, i, n, h => by
+    unfold emitAll at h ⊢
+    cases hp : popNext table with
+    | none => rw [hp] at h; simp at h
+    | some p =>
+      obtain ⟨m, table'⟩ := p
+      rw [hp] at h
+      simp only at h ⊢
+      cases i with
+      | zero =>
+        simp only [List.getElem?_cons_zero, Option.some.injEq] at h
+        subst h
+        exact ⟨[], popNext_ready hp, by simp⟩
+      | succ i =>
+        simp only [List.getElem?_cons_succ] at h
+        obtain ⟨deps', hmem, hdeps⟩ := emitAll_sound fuel table' i n h
+        rw [popNext_table hp] at hmem
+        obtain ⟨x, hx, hxe⟩ := List.mem_map.mp hmem
+        simp only [Prod.mk.injEq] at hxe
+        refine ⟨x.2, by rw [← hxe.1]; exact (List.mem_filter.mp hx).1, fun d hd => ?_⟩
+        by_cases e : d = m
+        · subst e; simp
+        · have : d ∈ deps' := by
+            rw [← hxe.2]
+            exact List.mem_filter.mpr ⟨hd, by simpa using e⟩
+          simp only [List.take_succ_cons, List.mem_cons]
+          exact Or.inr (hdeps d this)
+
+/-- everything emitted was a key of the table -/
+theorem emitAll_keys : ∀ (fuel : Nat) (table : List (String × List String)) (n : String),
+    n ∈ (emitAll fuel table).1 → n ∈ table.map (·.1)
+  | 0, table, n, h => by simp [emitAll] at h
+  | fuel + 1, table, n, h => by
+    unfold emitAll at h
+    cases hp : popNext table with
+    | none => rw [hp] at h; simp at h
+    | some p =>
+      obtain ⟨m, table'⟩ := p
+      rw [hp] at h
+      simp only [List.mem_cons] at h
+      rcases h with rfl | h
+      · exact List.mem_map.mpr ⟨_, popNext_ready hp, rfl⟩
+      · have := emitAll_keys fuel table' n h
+        rw [popNext_table hp] at this
+        obtain ⟨y, hy, rfl⟩ := List.mem_map.mp this
+        obtain ⟨x, hx, rfl⟩ := List.mem_map.mp hy
+        exact List.mem_map.mpr ⟨x, (List.mem_filter.mp hx).1, rfl⟩
+
+/-- **No class is declared twice** -/
+theorem emitAll_nodup : ∀ (fuel : Nat) (table : List (String × List String)), (emitAll fuel table).1.Nodup
+  | 0, table => by simp [emitAll]
+  | fuel + 1, table => by
+    unfold emitAll
+    cases hp : popNext table with
+    | none => simp
+    | some p =>
+      obtain ⟨m, table'⟩ := p
+      simp only
+      refine List.nodup_cons.mpr ⟨fun hm => ?_, emitAll_nodup fuel table'⟩
+      have := emitAll_keys fuel table' m hm
+      obtain ⟨y, hy, hye⟩ := List.mem_map.mp this
+      exact (popNext_strikes hp).1 y hy hye
+
+/-- **The orderer's answer is a topological order of the class graph**: a class appears after all of its
+    descendant classes, and never twice. -/
+theorem C11_order_sound (g : ClassGraph) (out : List String) (h : ordererGraph g = .ok out) :
+    out.Nodup ∧ ∀ (i : Nat) (n : String), out[i]? = some n → n ∈ g.order ∧ ∀ d ∈ descendantsOf g n, d ∈ out.take i := by
+  unfold ordererGraph at h
+  by_cases hc : (depTable g).any (fun e => e.2.contains e.1) = true
+  · rw [if_pos hc] at h; cases h
+  · rw [if_neg hc] at h
+    simp only [Except.ok.injEq] at h
+    subst h
+    refine ⟨emitAll_nodup _ _, fun i n hi => ?_⟩
+    obtain ⟨deps, hmem, hdeps⟩ := emitAll_sound _ _ i n hi
+    unfold depTable at hmem
+    obtain ⟨x, hx, hxe⟩ := List.mem_map.mp hmem
+    simp only [Prod.mk.injEq] at hxe
+    refine ⟨by rw [← hxe.1]; exact mem_removeDups.mp hx, fun d hd => hdeps d ?_⟩
+    rw [← hxe.2, hxe.1]; exact hd
 
 /-! ### evaluated in the kernel -/
 
